@@ -19,7 +19,7 @@
    buffered backend takes a flush oracle.  The theorems quantify over all of them.
    No proofs here (Proofs/TransferBytes.v). *)
 From Coq Require Import ZArith Bool Arith String List.
-From Verif Require Import Lib.Sx Lib.Facts Model.Bytes.
+From Verif Require Import Lib.Sx Lib.Facts Lib.XferFacts Model.Bytes.
 Import ListNotations.
 Open Scope string_scope.
 Open Scope list_scope.
@@ -345,6 +345,67 @@ Definition check_dispatch_facts (ws : list worker) (hs : list handler) (d : disp
   && forallb (fun v => match assoc_s v (d_table d) with Some t => String.eqb t v | None => false end)
              ["stor"; "appe"; "retr"; "rest"; "type"; "pasv"; "epsv"]%string
   && d_table_literal d.
+
+(* the data-path statements this model was written from (Gen.Xfer, role-normalised) *)
+Definition check_xfer_modes (f : xfer_facts) : bool :=
+  String.eqb (xf_stor_default_mode f) "wb" && String.eqb (xf_appe_mode f) "ab".
+
+Definition check_xfer_shapes (f : xfer_facts) : bool :=
+  list_string_eqb (xf_stor_body f)
+       ["if conn.restart_offset: await FILE.seek(conn.restart_offset)";
+        "async for ITEM in STREAM.iter_by_block(conn.block_size): await FILE.write(ITEM)"]
+  && list_string_eqb (xf_retr_body f)
+       ["if conn.restart_offset: await FILE.seek(conn.restart_offset)";
+        "async for ITEM in FILE.iter_by_block(conn.block_size): await STREAM.write(ITEM)"]
+  && String.eqb (xf_stor_open f) "conn.path_io.open(real_path, mode=file_mode)"
+  && String.eqb (xf_retr_open f) "conn.path_io.open(real_path, mode='rb')"
+  && list_string_eqb (xf_rest_body f)
+       ["rest.isdigit() => conn.restart_offset = int(rest)";
+        "not rest.isdigit() => conn.restart_offset = 0"]
+  && list_string_eqb (xf_reset_stmt f)
+       ["pending.add(asyncio.create_task(f(conn, rest)))";
+        "if cmd not in ('retr', 'stor', 'appe'): conn.restart_offset = 0"]
+  && list_string_eqb (xf_iter_anext f)
+       ["data = await self.read_coro()"; "if data: return data else: raise StopAsyncIteration"]
+  && list_string_eqb (xf_iter_by_block_stream f) ["return AsyncStreamIterator(lambda: self.read(count))"]
+  && list_string_eqb (xf_iter_by_block_file f) ["return AsyncStreamIterator(lambda: self.read(count))"]
+  && list_string_eqb (xf_throttle_read f)
+       ["await self.wait('read')"; "start = _now()"; "data = await super().read(count)";
+        "self.append('read', data, start)"; "return data"]
+  && list_string_eqb (xf_throttle_write f)
+       ["await self.wait('write')"; "start = _now()"; "await super().write(data)";
+        "self.append('write', data, start)"]
+  && list_string_eqb (xf_stream_read f) ["return await self.reader.read(count)"]
+  && list_string_eqb (xf_stream_write f) ["self.writer.write(data)"; "await self.writer.drain()"]
+  && (1 <=? xf_default_block_size f)%Z
+  && list_string_eqb (xf_get_stream f)
+       ["reader, writer = await self.get_passive_connection(conn_type)";
+        "if offset: await self.command('REST ' + str(offset), '350')";
+        "await self.command(*command_args)"]
+  && String.eqb (xf_passive_first_cmd f) "self.command('TYPE ' + conn_type, '200')"
+  && match xf_stream_verbs f with
+     | [(n1, a1); (n2, a2); (n3, a3)] =>
+         String.eqb n1 "upload_stream" && list_string_eqb a1 ["'STOR ' + str(PATH)"; "'1xx'"; "offset=offset"]
+         && String.eqb n2 "append_stream" && list_string_eqb a2 ["'APPE ' + str(PATH)"; "'1xx'"; "offset=offset"]
+         && String.eqb n3 "download_stream" && list_string_eqb a3 ["'RETR ' + str(PATH)"; "'1xx'"; "offset=offset"]
+     | _ => false
+     end
+  && list_string_eqb (xf_finish f)
+       ["self.close()"; "await self.client.command(None, expected_codes, wait_codes)"]
+  && list_string_eqb (xf_aexit f) ["if exc is None: await self.finish() else: self.close()"]
+  && list_string_eqb (xf_upload_file f)
+       ["async with self.path_io.open(SRC, mode='rb') as file_in, self.upload_stream(DST) as stream: async for block in file_in.iter_by_block(block_size): await stream.write(block)"]
+  && list_string_eqb (xf_download_file f)
+       ["async with self.path_io.open(DST, mode='wb') as file_out, self.download_stream(SRC) as stream: async for block in stream.iter_by_block(block_size): await file_out.write(block)"].
+
+Definition check_xfer_facts (f : xfer_facts) : bool := check_xfer_modes f && check_xfer_shapes f.
+
+(* the mode each upload verb hands to stor(): STOR the default of the `mode` parameter, APPE the
+   literal it delegates with *)
+Definition verb_mode (f : xfer_facts) (verb : string) : option mode :=
+  if String.eqb verb "stor" then verb_mode_of_name (xf_stor_default_mode f)
+  else if String.eqb verb "appe" then verb_mode_of_name (xf_appe_mode f)
+  else None.
 
 (* ------------------------------------------------------------------------------------------ *)
 (* harness interface *)
